@@ -319,6 +319,8 @@ var scenarioFamilies = map[int]func(r *rng) *cluster{
 	2: scElection,
 	3: scStaleGrants,
 	4: scIsolate,
+	5: scLeaseIsolation,
+	6: scHealthy,
 }
 
 type scResult struct {
@@ -500,6 +502,103 @@ func scIsolate(r *rng) *cluster {
 		}
 		if la.r.CurrentTerm() != termB && asked {
 			noteFinding(c, "C14", "rejoin-changed-cluster-term", "cluster term went from %d to %d after the isolated servers reconnected", termB, la.r.CurrentTerm())
+		}
+	}
+	c.settle(500 * time.Millisecond)
+	return c
+}
+
+// ---------------------------------------------------------------- C13: lease (real timers)
+func scLeaseIsolation(r *rng) *cluster {
+	nv := 3 + 2*r.intn(2)
+	nnv := r.intn(3)
+	o := timedOpts(nv, nnv)
+	c := basicCluster(o)
+	if !waitFor(3*time.Second, func() bool { return c.leader() != nil }) {
+		return c
+	}
+	l := c.leader()
+	c.call(l.id, "apply", 5000, 0).wait(300 * time.Millisecond)
+	c.settle(300 * time.Millisecond)
+	l = c.leader()
+	if l == nil {
+		return c
+	}
+	// the leader keeps fewer than a quorum of voters on its side, and possibly all non-voters
+	keep := r.intn((nv+1)/2 - 0) // voters kept besides the leader: 0 .. quorum-2
+	if keep > nv/2-1 {
+		keep = nv/2 - 1
+	}
+	side := []uint64{l.id}
+	var other []uint64
+	for _, id := range c.ids[:nv] {
+		if id == l.id {
+			continue
+		}
+		if keep > 0 {
+			side = append(side, id)
+			keep--
+		} else {
+			other = append(other, id)
+		}
+	}
+	for _, id := range c.ids[nv:] {
+		if r.chance(2, 3) {
+			side = append(side, id)
+		} else {
+			other = append(other, id)
+		}
+	}
+	t0 := time.Now()
+	c.partition(side, other)
+	lease := o.lease
+	stepped := waitFor(2*lease+400*time.Millisecond, func() bool { return l.r.State() != raft.Leader })
+	d := time.Since(t0)
+	c.h.add(hev{kind: "note", node: l.id, s: "stepdown-delay-us", a: uint64(d.Microseconds())})
+	if !stepped {
+		noteFinding(c, "C13", "isolated-leader-did-not-step-down", "leader %d kept leadership %v after losing its voter majority (lease %v, %d non-voters on its side)", l.id, d, lease, len(side)-1)
+	} else if d > 2*lease+150*time.Millisecond {
+		noteFinding(c, "C13", "isolated-leader-stepped-down-late", "leader %d stepped down after %v (lease %v)", l.id, d, lease)
+	}
+	if stepped {
+		cc := c.call(l.id, "apply", 5001, 0)
+		cc.wait(300 * time.Millisecond)
+		if cc.err == nil {
+			noteFinding(c, "C13", "write-accepted-after-step-down", "server %d acknowledged a write after giving up leadership", l.id)
+		}
+	}
+	c.heal()
+	waitFor(time.Second, func() bool { return c.leader() != nil })
+	c.settle(500 * time.Millisecond)
+	return c
+}
+
+func scHealthy(r *rng) *cluster {
+	o := timedOpts(3+2*r.intn(2), r.intn(2))
+	o.timeouts, o.lease = 250*time.Millisecond, 250*time.Millisecond
+	c := basicCluster(o)
+	if !waitFor(5*time.Second, func() bool { return c.leader() != nil }) {
+		return c
+	}
+	time.Sleep(100 * time.Millisecond)
+	l := c.leader()
+	if l == nil {
+		return c
+	}
+	term := l.r.CurrentTerm()
+	mark := c.h.add(hev{kind: "note", s: "quiet-start"})
+	deadline := time.Now().Add(1500 * time.Millisecond)
+	k := uint64(5100)
+	for time.Now().Before(deadline) {
+		if r.chance(1, 4) {
+			k++
+			c.call(l.id, "apply", k, 0)
+		}
+		time.Sleep(25 * time.Millisecond)
+	}
+	for _, e := range c.h.snapshot() {
+		if e.seq > mark && e.kind == "state" {
+			noteFinding(c, "C13", "healthy-cluster-changed-leader", "server %d changed to state %d (term %d) in a fault-free run that started with leader %d in term %d", e.node, e.a, e.b, l.id, term)
 		}
 	}
 	c.settle(500 * time.Millisecond)
